@@ -85,6 +85,9 @@ func tcpDial(mode string, lateAt *time.Time) func(addr string) (net.Conn, error)
 	}
 }
 
+// c19Prop is the property the probe scripts report under (they also run under C20: a probe round ends by its deadline).
+var c19Prop = "C19"
+
 func c19Probe(r *rng, id string) {
 	indirect := []int{0, 1, 3}[r.intn(3)]
 	tcpMode := []string{"off", "off", "fail", "ok", "wrongseq", "late"}[r.intn(6)]
@@ -204,7 +207,7 @@ func c19Probe(r *rng, id string) {
 	if len(toks) > 0 {
 		tk = strings.Join(toks, ";")
 	}
-	emit("C19 probe id=%s indirect=%d tcp=%s amax=%d s0=%d relays=%d evs=%s suspected=%d score=%d handlers=%d nind=%d expnacks=%d took=%d",
+	emit(c19Prop+" probe id=%s indirect=%d tcp=%s amax=%d s0=%d relays=%d evs=%s suspected=%d score=%d handlers=%d nind=%d expnacks=%d took=%d",
 		id, indirect, tcpMode, awareMax, s0, nrel, tk, susp, snap.Score, len(snap.AckHandlers), nInd, expNacks, int64(took))
 	m.Shutdown()
 }
